@@ -9,8 +9,8 @@ import (
 func zzH18() {
 	rec := &zzRec{}
 	now := zzNondetInstant("now", false)
-	m := &Monitor{cctx: zzNewContext(rec, &zzState{}), iface: "eth0", verbose: zzNondetChoice("verbose", 2) == 1,
-		now: func() time.Time { return now }}
+	m := NewMonitor(zzNewContext(rec, &zzState{}), "eth0", nil, nil, zzNondetChoice("verbose", 2) == 1)
+	m.now = func() time.Time { return now }
 	host := zzAtom("host")
 
 	kind := zzNondetChoice("kind", 4)
